@@ -113,7 +113,10 @@ class C19(Prop):
             "imports": imports,
             "type": r.choice(["class", "function", "argparse"]),
             "tpl": r.choice(TEMPLATES),
-            "prepend": r.choice([None, None, "PREPENDED = 1\n", '"""Generated module."""\n', "import json\nLEVEL = 2\n"]),
+            # (the last three: text that CONTAINS the text of an import line of the input module without being it)
+            "prepend": r.choice([None, None, "PREPENDED = 1\n", '"""Generated module."""\n', "import json\nLEVEL = 2\n",
+                                 "import os.path as osp\n", "import sysconfig\nfrom typing import Optional, List\n",
+                                 "NOTE = 'needs import sys and import os'\n"]),
             "use_imports": r.random() < 0.5,
         }
         if c["prepend"] and not c["use_imports"]:
@@ -195,7 +198,8 @@ class C19(Prop):
                     from doctrans.__main__ import main
 
                     main(["gen", "--name-tpl", c["tpl"], "--input-mapping", modname + ".MAPPING", "--type", c["type"], "-o", spelled]
-                         + (["--prepend", c["prepend"]] if c["prepend"] else []))  # fmt: skip
+                         + (["--prepend", c["prepend"]] if c["prepend"] else [])
+                         + (["--imports-from-file", os.path.join(d, modname + ".py")] if c["use_imports"] else []))  # fmt: skip
             except SystemExit as e:
                 outcome = "exit-%s" % e.code
             except Exception as e:
